@@ -2307,7 +2307,23 @@ def pred_value_type_symbol(spec):
     return x is not None and hasattr(x, 'value_type') and not isinstance(x.value_type, str)
 
 
+INIT_HELPER_OPS = ('mixed_elim', 'mm_elim', 'transits', 'fo_abs', 'zo_abs', 'seq_abs', 'add_lag')
+
+
+def pred_batch_uses_init_from_parameter(spec):
+    """some recipe of the batch applies a transformation that takes the initial estimate of a new
+    parameter from an existing one (modeling/odes.py::_extract_params_from_symb)"""
+    allops, index = ops()
+    for r in _list(_dict(spec).get('recipes')):
+        for st_ in _list(_dict(r).get('steps'))[:3]:
+            k = _int(_pad(st_, 3)[0])
+            if allops[index[(k * 197 + 13) % len(index)]][0] in INIT_HELPER_OPS:
+                return True
+    return False
+
+
 KNOWN_PREDICATES = {
+    'batch_uses_init_from_existing_parameter': pred_batch_uses_init_from_parameter,
     'has_derivatives': pred_has_derivatives,
     'has_initial_individual_estimates': pred_has_iie,
     'value_type_is_symbol': pred_value_type_symbol,
@@ -2333,10 +2349,10 @@ def selfcheck():
 
 # hash_process first: its shards mostly wait for their interpreters, so they should not be the tail of the run
 SUBCHECKS = [
-    SubCheck('hash_process', PROCESS_SPEC, run_hash_process, quick=16, thorough=50, quick_time=600.0, thorough_time=3000.0),
-    SubCheck('components', COMPONENTS, run_components, quick=2600, thorough=10360, quick_time=600.0, thorough_time=3000.0),
-    SubCheck('generic_code', GENERIC_SPEC, run_generic_code, quick=300, thorough=1040, quick_time=600.0, thorough_time=3000.0),
-    SubCheck('hash_content', CONTENT_SPEC, run_hash_content, quick=1000, thorough=4140, quick_time=600.0, thorough_time=3000.0),
+    SubCheck('hash_process', PROCESS_SPEC, run_hash_process, quick=16, thorough=100, quick_time=600.0, thorough_time=3000.0),
+    SubCheck('components', COMPONENTS, run_components, quick=2600, thorough=20720, quick_time=600.0, thorough_time=3000.0),
+    SubCheck('generic_code', GENERIC_SPEC, run_generic_code, quick=300, thorough=2080, quick_time=600.0, thorough_time=3000.0),
+    SubCheck('hash_content', CONTENT_SPEC, run_hash_content, quick=1000, thorough=8280, quick_time=600.0, thorough_time=3000.0),
 ]
 
 
